@@ -285,6 +285,55 @@ def generate():
         body += "def asyncLoopReadAtAwait : Bool := %s\n" % ("true" if collect_clean and at_await else "false")
         body += "/-- `_complete_task` returns at once for a task that belongs to another event loop -/\n"
         body += "def asyncSkipsForeignLoop : Bool := %s\n\n" % ("true" if [k for _, k in order] == ["skip", "await"] else "false")
+        # Handler.__init__, `if self._enqueue:` branch: the three channel objects are MULTIPROCESSING primitives that come
+        # from one provider (the module, or the context passed by the user), the owner is the creating process, the
+        # worker runs `_queued_writer` as a daemon thread and is started after everything it uses exists
+        init = find_func(tree, "__init__", cls="Handler")
+        enq = [n for n in init.body if isinstance(n, ast.If) and ast.unparse(n.test) == "self._enqueue"]
+        if len(enq) != 1:
+            raise Unsupported("Handler.__init__: no single top-level `if self._enqueue:` block")
+        chan = {}
+
+        def collect(stmts, cond):
+            for st in stmts:
+                if isinstance(st, ast.If):
+                    collect(st.body, ast.unparse(st.test))
+                    collect(st.orelse, "not (%s)" % ast.unparse(st.test))
+                elif isinstance(st, ast.Assign) and len(st.targets) == 1 and isinstance(st.targets[0], ast.Attribute) and \
+                        ast.unparse(st.targets[0].value) == "self":
+                    chan.setdefault(st.targets[0].attr, []).append((cond, st.value))
+        collect(enq[0].body, "")
+
+        local = {}      # local aliases of the provider (`context = multiprocessing` ... `context.SimpleQueue()`)
+        for n in ast.walk(enq[0]):
+            if isinstance(n, ast.Assign) and len(n.targets) == 1 and isinstance(n.targets[0], ast.Name):
+                local.setdefault(n.targets[0].id, set()).add(ast.unparse(n.value))
+        allowed = {"multiprocessing", "self._multiprocessing_context"}
+
+        def providers(attr, ctor):
+            out = []
+            for cond, v in chan.get(attr, []):
+                if not (isinstance(v, ast.Call) and isinstance(v.func, ast.Attribute) and v.func.attr == ctor and not v.args):
+                    return None
+                prov = ast.unparse(v.func.value)
+                if not ({prov} <= allowed or (prov in local and local[prov] <= allowed)):
+                    return None
+                out.append((cond, prov))
+            return out or None
+        pq, pe, pl = providers("_queue", "SimpleQueue"), providers("_confirmation_event", "Event"), \
+            providers("_confirmation_lock", "Lock")
+        same_provider = pq is not None and pq == pe == pl
+        owner_here = [ast.unparse(v) for c, v in chan.get("_owner_process_pid", [])] == ["os.getpid()"]
+        th = [v for c, v in chan.get("_thread", [])]
+        kw = {k.arg: ast.unparse(k.value) for k in th[0].keywords} if len(th) == 1 and isinstance(th[0], ast.Call) else {}
+        thread_ok = kw.get("target") == "self._queued_writer" and kw.get("daemon") == "True"
+        last = enq[0].body[-1]
+        started_last = isinstance(last, ast.Expr) and ast.unparse(last.value) == "self._thread.start()" and \
+            len([n for n in ast.walk(init) if isinstance(n, ast.Call) and ast.unparse(n.func) == "self._thread.start"]) == 1
+        body += "/-- `Handler.__init__`: queue, confirmation event and lock are multiprocessing primitives of ONE provider -/\n"
+        body += "def initChannelShared : Bool := %s\n" % ("true" if same_provider else "false")
+        body += "/-- … the owner is the creating process; the worker is a daemon thread running `_queued_writer`, started last -/\n"
+        body += "def initOwnerAndWorker : Bool := %s\n\n" % ("true" if owner_here and thread_ok and started_last else "false")
         # what a child inherits by pickling (Handler.__getstate__ / __setstate__): which attributes are blanked, which
         # are re-created afresh in the child - everything else (queue, confirmation event + lock, owner pid, _stopped)
         # travels as it is, i.e. is shared / copied, which is what `Queue.step`'s per-process part assumes
